@@ -1389,8 +1389,8 @@ theorem wstep_keeps_inSync (ca uri : String) (w : World) (m : List File)
   | sync objects now =>
     have hw : wstep ca uri w (.sync objects now) =
         { store := run w.store
-            (repoSyncEvents ca uri (some m) objects "list-refused" "delta-refused" now).1,
-          server := (repoSyncEvents ca uri (some m) objects "list-refused" "delta-refused" now).2 } := by
+            (repoSyncEvents ca uri true (some m) objects "list-refused" "delta-refused" now).1,
+          server := (repoSyncEvents ca uri true (some m) objects "list-refused" "delta-refused" now).2 } := by
       simp [wstep, hs]
     rw [hw]
     refine ⟨consistent_run _ hc _, ?_⟩
